@@ -16,6 +16,7 @@ import (
 	"path/filepath"
 	"sort"
 	"strings"
+	"time"
 
 	"github.com/markkurossi/mpc/circuit"
 	"github.com/markkurossi/mpc/compiler"
@@ -304,19 +305,20 @@ type Variant struct {
 
 // Job is one compilation of the program under comparison.
 type Job struct {
-	Src        string
-	Sizes      [][]int
-	Variant    Variant
-	History    []string // sources compiled before, on the same instance if Reuse
+	Src     string
+	Sizes   [][]int
+	Variant Variant
+	History []string // sources compiled before, on the same instance if Reuse
 	// HistTune[i] != 0: history compilation i runs on its own Compiler with its
 	// own Params carrying other tuning values (as a tuning or benchmarking tool
 	// does in the same process): low byte = CircMultArrayTreshold, bit 8 = other
 	// OptPruneGates, bit 9 = other target; "\x00self" as source = the program itself.
-	HistTune []int
-	Reuse      bool     // one compiler.Compiler value for history and program
-	SameParams bool     // one utils.Params value for history and program
-	Twice      bool     // compile the program itself twice on the instance, keep the second
-	MapSeed    uint64   // child processes: seed of the map-order stream
+	HistTune   []int
+	Reuse      bool   // one compiler.Compiler value for history and program
+	SameParams bool   // one utils.Params value for history and program
+	Twice      bool   // compile the program itself twice on the instance, keep the second
+	SlowSSA    bool   // the SSA listing goes to a writer that blocks (concurrent cases)
+	MapSeed    uint64 // child processes: seed of the map-order stream
 }
 
 // Artefacts are the outputs compared.
@@ -333,6 +335,24 @@ type Artefacts struct {
 type nopCloser struct{ *bytes.Buffer }
 
 func (nopCloser) Close() error { return nil }
+
+// slowWriter is the SSA listing's destination in the concurrent cases: a pipe, socket or busy
+// disk - every Write is a scheduling point, takes its time before it consumes the bytes, and
+// one write in eight blocks for a millisecond of virtual time.
+type slowWriter struct{ buf *bytes.Buffer }
+
+func (w slowWriter) Write(p []byte) (int, error) {
+	rt.Yield()
+	if rt.Choose(rt.SFault, 8) == 0 {
+		rt.Reach("ssa-writer.blocked")
+		rt.Sleep(time.Millisecond)
+	}
+	n, err := w.buf.Write(p)
+	rt.Yield()
+	return n, err
+}
+
+func (slowWriter) Close() error { return nil }
 
 func newParams(v Variant) *utils.Params {
 	p := utils.NewParams()
@@ -433,6 +453,9 @@ func RunJob(j Job, keepSSA bool) (a Artefacts) {
 			p2.SymbolIDs = map[string]int{}
 		}
 		p2.SSAOut = nopCloser{&ssa}
+		if j.SlowSSA {
+			p2.SSAOut = slowWriter{&ssa}
+		}
 		defer func() { p2.SSAOut = nil }()
 		circ, _, err := c2.Compile(j.Src, j.Sizes)
 		return circ, err
@@ -590,6 +613,26 @@ func (w *world) Run(t *rt.Tape, trace bool) *core.Result {
 		}
 		smp.Jobs = append(smp.Jobs, fmt.Sprintf("history=%d (with other tuning parameters: %d) reuse-compiler=%v same-params=%v twice=%v separate-process=%v", len(j.History), tuned, j.Reuse, j.SameParams, j.Twice, inChild[i]))
 	}
+	// One case in five: after job 0 ran alone, the other jobs run at the same time in the process
+	// (a server compiling for several sessions, a build tool with a worker per file), each on
+	// Compiler and Params values of its own, beside a compilation of another program; their SSA
+	// listings go to writers that block. "Repeated compilations" includes overlapping ones.
+	concurrent := false
+	var noise Job
+	if t.Choose(rt.SGen, 5) == 0 {
+		concurrent = true
+		for i := range jobs {
+			inChild[i] = false
+			if i > 0 {
+				jobs[i].SlowSSA = true
+				jobs[i].SameParams = false
+			}
+		}
+		np := crafted[t.Choose(rt.SGen, len(crafted))]
+		noise = Job{Src: np.Src, Sizes: [][]int{{64}, {64}}, Variant: Variant{Prune: t.Choose(rt.SGen, 2) == 1}, SlowSSA: true}
+		smp.Jobs = append(smp.Jobs, "jobs 1.. run concurrently with each other and with a compilation of "+np.Name)
+		res.Reach["concurrent-compilations"]++
+	}
 	res.Sample = smp
 	res.Class = "prog=" + strings.SplitN(p.Name, "/", 2)[0]
 
@@ -597,6 +640,28 @@ func (w *world) Run(t *rt.Tape, trace bool) *core.Result {
 	var childErr error
 	rr := rt.Run(rt.Config{Trace: trace}, t, func() {
 		rt.LogBytes('p', []byte(p.Src))
+		if concurrent {
+			arts[0] = RunJob(jobs[0], true)
+			done := rt.NewChan[int](nj)
+			for i := 1; i < nj; i++ {
+				i := i
+				rt.Go(fmt.Sprintf("job%d", i), func() {
+					arts[i] = RunJob(jobs[i], true)
+					done.Send(i)
+				})
+			}
+			rt.Go("noise", func() {
+				RunJob(noise, false)
+				done.Send(0)
+			})
+			for i := 0; i < nj; i++ {
+				done.Recv()
+			}
+			for i := range arts {
+				rt.LogBytes('a', []byte(arts[i].Circ+arts[i].SSA))
+			}
+			return
+		}
 		for i, j := range jobs {
 			if inChild[i] {
 				arts[i], childErr = runInChild(j)
